@@ -51,7 +51,10 @@ Apply(r) ==
     [] r.ev = "SysStopEnd"    -> H_SysStopEnd(h, r.tid)
     [] r.ev = "RunCall"       -> H_RunCall(h)
     [] r.ev = "Polled"        -> H_Polled(h)
-    [] r.ev = "LoopEndSeen"   -> H_LoopEnd(h, r.arb)
+    \* only the destruction of a task that HAD STARTED shows that the loop has ended (the LocalSet goes after the runner and
+    \* its receiver); a command that never started is destroyed wherever the loop keeps it - in the closed channel, or in a
+    \* batch the loop took off the channel before it met the Stop - and proves nothing about the channel
+    [] r.ev = "LoopEndSeen"   -> IF "started" \in DOMAIN r /\ ~r.started THEN h ELSE H_LoopEnd(h, r.arb)
     [] r.ev \in {"JoinReturned", "GoneObserved"} -> H_Join(h, r.arb, TRUE)
     [] r.ev \in {"JoinTimeout", "GoneTimeout"}   -> H_Join(h, r.arb, FALSE)
     [] r.ev = "RunReturned"   -> IF "coded" \in DOMAIN r /\ ~r.coded THEN H_RunRetNoCode(h, r.api)
